@@ -40,6 +40,16 @@ class Check(PropCheck):
             if rng.random() < 0.25:
                 ops += edit_prefix(rng, rng.randint(1, 3)) + ['compress']
             ops += ['dump', 'dm', 'dmr', 'dm', 'get_leaves']
+            if rng.random() < 0.35:
+                # the per-node distance caches must not survive an edit: matrix, edit, matrix again
+                e = rng.random()
+                if e < 0.4:
+                    ed = ['rescale ' + vf.enc_len(rng.choice([2.0, 0.5, 4.0]))]
+                elif e < 0.7:
+                    ed = ['pick leaf %d' % rng.randint(0, 10 ** 6), 'prune $0', 'compress']
+                else:
+                    ed = ['pick sibpair %d' % rng.randint(0, 10 ** 6), 'merge $0 $1 %s %s %s -' % (vf.enc_len(0.5), vf.enc_len(1.5), vf.enc_len(0.25))]
+                ops += ed + ['dump', 'dm', 'dmr']
             meta = {'tol': None if mode in ('exact', 'none') else 1e-9, 'mode': mode}
             if n <= 12:
                 # pairwise get_distance on all leaf pairs: ids are not known here, ask for all pairs of slots
@@ -48,6 +58,11 @@ class Check(PropCheck):
                     for b in range(a + 1, sz):
                         ops.append('dist %d %d' % (a, b))
             cases.append(Case('c%d' % j, ops, meta))
+        for j in range(40 if self.tier == 'quick' else 600):
+            n = rng.randint(3, 10)
+            t = gen.rand_tree(rng, n, 'exact', p_multi=0.3, p_unary=0.1, internal_names=0.3)
+            ops = [gen.parse_op(gen.to_newick(t)), 'pick nonroot %d' % rng.randint(0, 10 ** 6), 'set_pedge $0 ' + vf.enc_len(gen.exact_len(rng)), 'dm', 'dmr', 'dump']
+            cases.append(Case('w%d' % j, ops, {'tol': None, 'mode': 'exact', 'pub_write': True}))
         return cases
 
     def nontrivial(self, case, il):
@@ -58,16 +73,31 @@ class Check(PropCheck):
 
     def predicate(self, case, il):
         bad = []
+        if case.meta.get('pub_write'):
+            return [(i, o + ' ' + l[0]) for i, (o, l) in enumerate(zip(case.ops, il)) if l and l[0] in ('panic', 'crash', 'hang')][:1]
         tol = case.meta.get('tol')
+        groups = []
         nodes = None
         mats = []
         for i, (o, l) in enumerate(zip(case.ops, il)):
             if o == 'dump':
-                nodes = dump_of(l)
+                if nodes is not None:
+                    groups.append((nodes, mats))
+                nodes = dump_of(l); mats = []
             elif o in ('dm', 'dmr'):
                 if l[0] in ('panic', 'crash', 'hang'):
                     return [(i, o + ' ' + l[0])]
                 mats.append((i, o, l))
+        if nodes is not None:
+            groups.append((nodes, mats))
+        for nodes, mats in groups:
+            r = self.judge(nodes, mats, tol)
+            if r:
+                return r
+        return []
+
+    def judge(self, nodes, mats, tol):
+        bad = []
         if nodes is None:
             return bad
         live = [n for n in nodes if n is not None]
